@@ -9,7 +9,7 @@ from vlib import core, gen, sched
 PROP = "C20"
 META = {
     "technique": "Coq proof: inductive invariant (thread counts per program point + ghost byte equations) over all schedules of an access-granular model of the callback hand-off in stream.go (event loop, SetCallbacks, callback goroutines, Close); tie: the real instrumented stream.go functions under a controlled scheduler compared access by access with the model",
-    "level_text": "Theorems C20_serial / C20_no_strand / C20_quiescent / C20_order_once / C20_stop hold for every list of inbound events, any number of Close() calls, any OnData behaviour and every schedule (induction over the schedule, unbounded number of goroutines), whether the callbacks are installed before the first event or later by SetCallbacks at any point (C20_late_no_strand, C20_late_serial: the two statements that were refuted before SetCallbacks was repaired); C20_view_stable: while an OnData runs the event loop never touches recvBuf (refuted until the closed path of fillDataToReadBuffer stopped recycling recvBuf under installed callbacks). The model is tied to /repo's stream.go by running the real functions, instrumented from the current source, under random, sticky, systematic single-pre-emption and exhaustive (two arrivals) schedules whose access traces, OnData offers and final states must equal the model's; an independent serial/no-strand/order-once/stop oracle runs on every case; the former witness schedules are regression scenarios.",
+    "level_text": "Theorems C20_serial / C20_no_strand / C20_quiescent / C20_order_once / C20_stop hold for every list of inbound events, any number of Close() calls, any OnData behaviour and every schedule (induction over the schedule, unbounded number of goroutines), whether the callbacks are installed before the first event or later by SetCallbacks at any point (C20_late_no_strand, C20_late_serial: the two statements that were refuted before SetCallbacks was repaired); C20_view_stable: while an OnData runs the event loop never touches recvBuf (refuted until the closed path of fillDataToReadBuffer stopped recycling recvBuf under installed callbacks). The model is tied to /repo's stream.go by running the real functions, instrumented from the current source, under random, sticky, systematic single-pre-emption and exhaustive (two arrivals) schedules whose access traces, OnData offers and final states must equal the model's; an independent serial/no-strand/order-once/stop oracle runs on every case; the former witness schedules are regression scenarios. Blocking reads inside OnData (ReadBytes/Peek of more than was offered parks in readMore with callbackInProcess = 1): C20_parked_resumed / C20_parked_enabled / C20_parked_quiescent — whatever arrives while an invocation is parked is announced by the recvNotifyCh token (the asyncNotify in fillDataToReadBuffer is a model step and a scheduling point of the instrumented build: it must appear in the trace in callback mode too), the parked invocation is then enabled, and at rest nothing is left in pendingData; readMore's select is a controlled choice of the harness, and a real-pair family reads framed messages flushed in two parts with blocking reads.",
     "level_note": "Reading: a byte is 'offered' while the local state is opened (data pending when the peer's close is handled is never offered: booked under C07). Trusted: coqc kernel; sequential consistency; go/verisched instrumenter + scheduler (scheduling points only at the atomic accesses of stream.go and at harness marks: the model is finer and its theorems cover a superset of these schedules); the session stays open; one FIFO transport; payload = heap fallback slices.",
 }
 
@@ -92,9 +92,12 @@ def case_to_coq(c):
     uresq = core.coq_list([core.coq_list(["true" if b else "false" for b in (u or [])]) for u in (c.get("ures") or [])])
     evs = core.coq_list([("None" if st == "synthetic" else event(st["ev"])) for (_, st) in pairs])
     offers = core.coq_list([zl(o) for o in (c["offers"] or [])])
-    return ("{| s_cb0 := %s; s_inb := %s; s_ncl := %d%%nat; s_script := %s; s_sy := %s; s_ups := %s; s_sched := %s; s_events := %s; "
+    needs = core.coq_list(["%d%%nat" % k for k in (c.get("needs") or [])])
+    picks = core.coq_list(["true" if b else "false" for b in (c.get("picks") or [])])
+    return ("{| s_cb0 := %s; s_inb := %s; s_ncl := %d%%nat; s_script := %s; s_sy := %s; s_ups := %s; s_needs := %s; s_picks := %s; "
+            "s_sched := %s; s_events := %s; "
             "s_offers := %s; s_consumed := %s; s_final := %s; s_recv := %s; s_pend := %s; s_finished := %s; s_ures := %s |}"
-            % ("true" if c["cb0"] else "false", inb, c["ncl"], scr, sy, upsq, sch, evs, offers, zl(c["consumed"]),
+            % ("true" if c["cb0"] else "false", inb, c["ncl"], scr, sy, upsq, needs, picks, sch, evs, offers, zl(c["consumed"]),
                zl(c["final"]), zl(c["recv"]), zl(c["pend"]), "true" if c.get("finished") else "false", uresq))
 
 
@@ -139,7 +142,9 @@ def instrument_stream():
     mutex as a scheduling point (r.Lock()/r.Unlock() in the methods of *pendingData, s.pendingData.Lock()/Unlock()
     -> vsLock/vsUnlock), a scheduling point in front of every element access of the walks over
     pendingData.unread (c20Walk(i) at the head of each `for i := range [r.]unread` loop) and one in front of
-    asyncGoroutineWg.Add(1) (mark 14).  Returns (overlay, error)."""
+    asyncGoroutineWg.Add(1) (mark 14); a scheduling point of its own in front of every asyncNotify(s.recvNotifyCh)
+    (mark 16: the token that hands a late arrival to an OnData parked in a blocking read), and readMore's select as a
+    controlled choice (c20Select: which channel was ready is part of the trace; parked = busy).  Returns (overlay, error)."""
     ov, rep, err = sched.instrument(["stream.go"])
     if err:
         return None, err
@@ -165,6 +170,23 @@ def instrument_stream():
     src, k6 = re.subn(r"(\n\s*)(vsWgAdd\(&s\.asyncGoroutineWg, 1\))", r"\1c20Mark(14)\1\2", src)
     if k6 < 1:
         return None, "cannot find asyncGoroutineWg.Add(1) in stream.go"
+    # the token for a parked reader: every asyncNotify(s.recvNotifyCh) becomes a scheduling point with an event
+    src, k7 = re.subn(r"\basyncNotify\(s\.recvNotifyCh\)", "c20Notify(s.recvNotifyCh)", src)
+    if k7 < 1:
+        return None, "cannot find asyncNotify(s.recvNotifyCh) in stream.go"
+    # readMore's select: a controlled choice between recvNotifyCh, closeNotifyCh and the deadline
+
+    def in_readmore(m):
+        body = m.group(0)
+        body, a = re.subn(r"\bselect \{", "switch c20Select(s.recvNotifyCh, s.closeNotifyCh, timeoutCh) {", body)
+        body, b1 = re.subn(r"case <-s\.recvNotifyCh:", "case 0:", body)
+        body, b2 = re.subn(r"case <-s\.closeNotifyCh:", "case 1:", body)
+        body, b3 = re.subn(r"case <-timeoutCh:", "case 2:", body)
+        n.append((a, b1, b2, b3))
+        return body
+    src = re.sub(r"func \(s \*Stream\) readMore\(.*?\n}\n", in_readmore, src, flags=re.S)
+    if len(n) < 2 or n[-1] != (1, 1, 1, 1):
+        return None, "cannot find readMore's select on recvNotifyCh / closeNotifyCh / the deadline in stream.go (%r)" % (n[1:],)
     d = os.path.join(core.WORK, "inst_c20_" + core.tree_hash())
     os.makedirs(d, exist_ok=True)
     p = os.path.join(d, "stream.go")
@@ -192,7 +214,7 @@ def run_harness(test, files_prop, n, seed, tag, extra_env=None):
 
 
 def brief(c):
-    return {k: c.get(k) for k in ("id", "strat", "kind", "cb0", "inb", "ncl", "setter", "sync", "script", "ups", "infl", "ures", "ndata", "offers", "consumed",
+    return {k: c.get(k) for k in ("id", "strat", "kind", "cb0", "inb", "ncl", "setter", "sync", "script", "needs", "picks", "read_err", "parked_ok", "deadlock", "ups", "infl", "ures", "ndata", "offers", "consumed",
                                   "final", "recv", "pend", "finished")} | {"schedule": [s["tid"] for s in (c.get("steps") or [])]}
 
 
@@ -242,6 +264,8 @@ def check(run):
             run.add_oracle_failure("C20:real-pair:" + re.sub(r"\d+", "#", m)[:60], m, c)
     run.coverage["real_pair_rounds"] = len([c for c in (tcases or []) if not c.get("skipped")])
     run.coverage["real_pair_messages"] = sum(c.get("got", 0) for c in (tcases or []))
+    run.coverage["real_pair_framed_rounds"] = len([c for c in (tcases or []) if c.get("framed") and not c.get("skipped")])
+    run.coverage["real_pair_blocking_reads_that_waited"] = sum(c.get("parks", 0) for c in (tcases or []))
     cmp_cases = [c for c in cases if c.get("cmp") and c.get("steps") is not None]
     if cmp_cases:
         try:
